@@ -17,7 +17,7 @@ type hostileStorage struct{ content []byte }
 
 func (h *hostileStorage) Save(id []byte, context tokenCommon.TokenContext, data []byte) error { return nil }
 func (h *hostileStorage) Get(id []byte, context tokenCommon.TokenContext) ([]byte, error) {
-	return append([]byte{}, h.content...), nil
+	return dup(h.content), nil
 }
 func (h *hostileStorage) Stat(id []byte, context tokenCommon.TokenContext) (tokenCommon.TokenMetadata, error) {
 	return tokenCommon.TokenMetadata{}, nil
@@ -171,7 +171,7 @@ func init() {
 			case tokenCommon.TokenType_String:
 				val = string(v)
 			case tokenCommon.TokenType_Bytes:
-				val = append([]byte{}, v...)
+				val = dup(v)
 			case tokenCommon.TokenType_Email:
 				val = tokenCommon.Email(v)
 			default:
@@ -225,11 +225,11 @@ func init() {
 			w := getWorld()
 			setting := w.env.Setting(tokCols[int(in[0])%len(tokCols)])
 			ctx := tokenCommon.TokenContext{ClientID: w.ids[0]}
-			tok, err := dt.Tokenize(append([]byte{}, in[1:]...), ctx, setting)
+			tok, err := dt.Tokenize(dup(in[1:]), ctx, setting)
 			if err == nil {
 				_, _ = dt.Detokenize(tok, ctx, setting)
 			}
-			_, _ = dt.Detokenize(append([]byte{}, in[1:]...), ctx, setting)
+			_, _ = dt.Detokenize(dup(in[1:]), ctx, setting)
 			return err
 		}})
 	_ = proto.Marshal
